@@ -103,6 +103,8 @@ from bardic.stdlib.inventory import Inventory
 from bardic.stdlib.relationship import Relationship
 import c06mod as cm
 import math
+from math import floor
+from random import randint
 
 :: Start
 Start.
@@ -110,6 +112,12 @@ Start.
 
 :: Camp
 Camp.
+
+:: UseBuiltin
+{floor(2.5)}
+
+:: UseMethod
+{randint(3, 3)}
 
 :: UseClass
 {Wallet(5).gold} {Plain("a", 1).n} {Hero("h", 2, []).hp}
@@ -120,7 +128,8 @@ Camp.
 :: UseModule
 {cm.helper(2)} {math.floor(2.5)}
 '''
-USE = {"class": ("UseClass", "5 1 2"), "function": ("UseFunc", "2"), "module": ("UseModule", "3 2")}
+USE = {"class": ("UseClass", "5 1 2"), "function": ("UseFunc", "2"), "module": ("UseModule", "3 2"),
+       "builtin-function": ("UseBuiltin", "2"), "bound-method": ("UseMethod", "3")}
 
 # the same values built by `~` statements of a story (Mid mutates them, Camp has no commands)
 STORY2_SRC = '''from c06mod import Plain, Secret, Box, Hero, helper
